@@ -31,7 +31,7 @@ package crlreader
 //@   props C06 C07
 //@   requires processorOK(crlProcessor)
 //@   ensures processorOK(crlProcessor)
-//@   assigns M.map[string][]uint8, X.ldbhas, X.fs, X.stream, X.hacc, X.hkind, E.uint8, E.any
+//@   assigns M.map[string][]uint8, X.ldbhas, X.fs, X.stream, X.spos, X.hacc, X.hkind, E.uint8, E.any
 //@   ensures a: err == nil ==> ret != nil && ret.Issuer != nil 
 //@   ensures b: err == nil ==> ret.Signature != nil 
 //@   ensures c: err == nil ==> ret.HashAndVerifyStrategy != nil
@@ -46,7 +46,7 @@ package crlreader
 //@   props C06 C07 C01 C17
 //@   requires issuer != nil && processorOK(processor) && wrapperOK(reader)
 //@   ensures processorOK(processor)
-//@   assigns M.map[string][]uint8, X.ldbhas, X.fs, X.stream, X.hacc, X.hkind, E.uint8, E.any
+//@   assigns M.map[string][]uint8, X.ldbhas, X.fs, X.stream, X.spos, X.hacc, X.hkind, E.uint8, E.any
 //@   ensures[C01,C06] insert_error_propagates: called(CRLProcessor.InsertRevokedCertificate#1) && res(CRLProcessor.InsertRevokedCertificate#1) != nil ==> err != nil
 //@   ensures[C01,C06] read_error_propagates: called(ReadStruct#1) && res(ReadStruct#1) != nil ==> err != nil
 //@   loop 1 invariant processorOK(processor)
@@ -72,25 +72,25 @@ package crlreader
 //@ func parseVersion
 //@   props C06 C07
 //@   requires wrapperOK(reader)
-//@   assigns X.stream, X.hacc, X.hkind, E.uint8
+//@   assigns X.stream, X.spos, X.hacc, X.hkind, E.uint8
 //@   ensures[C06] version_range: err == nil ==> 1 <= r0 && r0 <= 256
 //@ func parseExtensions
 //@   props C06 C07
 //@   requires wrapperOK(reader)
-//@   assigns X.stream, X.hacc, X.hkind, E.uint8
+//@   assigns X.stream, X.spos, X.hacc, X.hkind, E.uint8
 //@   ensures err == nil ==> ret != nil
 //@ func parseCRlNumberIfExists
 //@   props C06 C07
 //@   requires crlExtensions != nil
-//@   assigns X.stream, E.uint8
+//@   assigns X.stream, X.spos, E.uint8
 //@ func readAlgorithmIdentifier
 //@   props C06 C07
 //@   requires readerOK(reader)
-//@   assigns X.stream, X.hacc, X.hkind, E.uint8
+//@   assigns X.stream, X.spos, X.hacc, X.hkind, E.uint8
 //@ func findAlgorithmIdentifierInCRL
 //@   props C06 C07
 //@   requires file != nil
-//@   assigns X.stream, X.fs, X.hacc, X.hkind, E.uint8
+//@   assigns X.stream, X.spos, X.fs, X.hacc, X.hkind, E.uint8
 //@   ensures err == nil ==> ret != nil
 //@ func seekToCRLBegin
 //@   props C06 C07
@@ -99,7 +99,7 @@ package crlreader
 //@ func newHashingCRLReader
 //@   props C06 C07
 //@   requires crlFile != nil
-//@   assigns X.fs, X.stream
+//@   assigns X.fs, X.stream, X.spos
 //@   ensures ret.Reader != nil && !ret.CalculateSignature
 //@ func newHashingDERCRLReader
 //@   props C06 C07
